@@ -94,8 +94,12 @@ fn snd_mode(m: u32) -> SenderSettleMode {
 }
 
 /// Sender application: every message batchable, outcomes awaited afterwards in a seeded order
-fn spawn_sender(mut s: Sender, plan: Vec<(Msg, Out, bool)>, log: Rc<RefCell<SendLog>>, mode: u32, finished: Slot<()>, plain_allowed: bool) {
+/// `late`: (go_close, link_closed, torn_down) - the outcomes of the batchable sends are awaited only
+/// after the link has been closed and the session and the connection are gone
+fn spawn_sender(s: Sender, plan: Vec<(Msg, Out, bool)>, log: Rc<RefCell<SendLog>>, mode: u32, finished: Slot<()>, plain_allowed: bool, late: Option<(Slot<()>, Slot<()>, Slot<()>)>) {
     sim::spawn("app-sender", async move {
+        let mut s = s;
+        let plain_allowed = plain_allowed && late.is_none();
         let mut futs = Vec::new();
         for (m, out, presettle) in plan.iter() {
             let uid = msgs::uid_of(m).unwrap();
@@ -122,6 +126,16 @@ fn spawn_sender(mut s: Sender, plan: Vec<(Msg, Out, bool)>, log: Rc<RefCell<Send
                 }
             }
         }
+        let mut keep: Option<Sender> = Some(s);
+        if let Some((go_close, link_closed, torn_down)) = late {
+            go_close.take().await;
+            if let Some(s) = keep.take() {
+                let _ = sim::op("close before the outcomes are looked at", s.close()).await;
+            }
+            link_closed.put(());
+            torn_down.take().await;
+            sim::fault("outcomes-awaited-after-teardown");
+        }
         // await the outstanding outcomes in a seeded order
         while !futs.is_empty() {
             let i = choice(futs.len() as u32) as usize;
@@ -134,7 +148,7 @@ fn spawn_sender(mut s: Sender, plan: Vec<(Msg, Out, bool)>, log: Rc<RefCell<Send
         log.borrow_mut().done = true;
         finished.put(());
         std::future::pending::<()>().await;
-        drop(s);
+        drop(keep);
     });
 }
 
@@ -235,8 +249,14 @@ fn spawn_receiver(mut r: Receiver, outs: BTreeMap<u64, Out>, n: usize, errors: R
             }
         }
         finished.put(());
+        // stay on the link: a close from the sender is answered
+        match r.recv::<Body<Value>>().await {
+            Ok(_) => errors.borrow_mut().push("a delivery beyond the planned ones arrived".into()),
+            Err(_) => {
+                let _ = tokio::time::timeout(std::time::Duration::from_secs(60), r.close()).await;
+            }
+        }
         std::future::pending::<()>().await;
-        drop(r);
     });
 }
 
@@ -332,8 +352,12 @@ pub async fn run_pair() {
     // max-message-size in the client's attach: the sending link cuts larger messages into several
     // transfers of its own (link-level split); settlement is per delivery all the same
     let mms = pick(&[None, None, Some(100u64), Some(700)]);
+    // the sender looks at the outcomes of its batchable sends only after everything is over: the
+    // link closed, the session ended, the connection closed (they were all reported before that)
+    let late_await = client_sends && choice(4) == 0;
+    let late: Option<(Slot<()>, Slot<()>, Slot<()>)> = if late_await { Some((Slot::new(), Slot::new(), Slot::new())) } else { None };
     sim::set_config(format!(
-        "variant=pair {} snd-mode={} rcv-second={} msgs={} credit={} strategy={} mms={:?} mfs={}/{} {}",
+        "variant=pair {} snd-mode={} rcv-second={} msgs={} credit={} strategy={} mms={:?} outcomes-awaited-after-teardown={} mfs={}/{} {}",
         if client_sends { "C>L" } else { "L>C" },
         smode,
         rcv_second,
@@ -341,6 +365,7 @@ pub async fn run_pair() {
         credit,
         strategy,
         mms,
+        late_await,
         ccfg.max_frame_size,
         lcfg.max_frame_size,
         nd
@@ -373,7 +398,7 @@ pub async fn run_pair() {
             sim::in_group(2, async move {
                 let acceptor = LinkAcceptor::new();
                 match sim::op("link accept", acceptor.accept(&mut lsess)).await {
-                    Some(Ok(LinkEndpoint::Sender(s))) => spawn_sender(s, plan2, slog2, smode, sdone2, plain_allowed),
+                    Some(Ok(LinkEndpoint::Sender(s))) => spawn_sender(s, plan2, slog2, smode, sdone2, plain_allowed, None),
                     Some(Ok(LinkEndpoint::Receiver(mut r))) => {
                         r.set_credit_mode(CreditMode::Auto(credit));
                         let _ = r.set_credit(credit).await;
@@ -405,7 +430,7 @@ pub async fn run_pair() {
         )
         .await;
         match r {
-            Some(Ok(s)) => spawn_sender(s, plan.clone(), slog.clone(), smode, sdone.clone(), plain_allowed),
+            Some(Ok(s)) => spawn_sender(s, plan.clone(), slog.clone(), smode, sdone.clone(), plain_allowed, late.clone()),
             Some(Err(e)) => {
                 sim::violation("attach-failed", format!("{:?}", e));
                 return;
@@ -447,6 +472,17 @@ pub async fn run_pair() {
     if !rerrors.borrow().is_empty() {
         sim::violation("receiver-error", format!("{:?}", rerrors.borrow()));
         return;
+    }
+    if let Some((go_close, link_closed, torn_down)) = &late {
+        // every outcome has reached the sending endpoint; now the link, the session and the connection go
+        world::quiesce_pair(&pair.net).await;
+        go_close.put(());
+        if sim::op("sender closes its link", link_closed.take()).await.is_none() {
+            return;
+        }
+        let _ = sim::op("session end", csess.end()).await;
+        let _ = sim::op("connection close", pair.client.close()).await;
+        torn_down.put(());
     }
     if sim::op("sender application", sdone.take()).await.is_none() {
         return;
@@ -572,7 +608,7 @@ pub async fn run_scripted_receiver() {
             Some((Ok(s), Some(()))) => {
                 let log = Rc::new(RefCell::new(SendLog::default()));
                 let done: Slot<()> = Slot::new();
-                spawn_sender(s, plan.clone(), log.clone(), smode, done.clone(), false);
+                spawn_sender(s, plan.clone(), log.clone(), smode, done.clone(), false, None);
                 logs.push(log);
                 dones.push(done);
                 links.push(PLink { ep_handle, peer_handle, deliveries: Vec::new(), open: None });
